@@ -949,3 +949,17 @@ mod tests {
         }
     }
 }
+
+/// Visibility-only hooks for /verif (contract verification harnesses and replay).
+#[cfg(isographlabs_isograph_verif)]
+pub mod verif_hooks {
+    pub const MIN_SIZE: u32 = super::MIN_SIZE;
+    pub const NUM_SIZES: usize = super::NUM_SIZES;
+    pub const MAX_INDEX: u32 = super::MAX_INDEX;
+    pub fn index(i: u32) -> (usize, usize) {
+        super::index(i)
+    }
+    pub fn bucket_capacity(a: usize) -> usize {
+        super::bucket_capacity(a)
+    }
+}
